@@ -1,5 +1,5 @@
 """C13 — every reported observable equals its definition on the current state (plumbing + definition shape)."""
-from ..rules import drivers, step, canon, dark, jump, observables, once
+from ..rules import drivers, step, canon, dark, jump, observables, once, axes
 
 META = {
     "title": "Every reported observable equals its definition on the current state",
@@ -7,7 +7,7 @@ META = {
                  "every path of both drivers, event order in the noisy driver, expression-shape checks of the "
                  "built-in implementations; dispatch table of observable class → implementation; QR gauge-move idiom table; polynomial normal form of the normalised state",
     "design_ref": "DESIGN.md §5 C13",
-    "explanation": "ROLE-sv: on every path of emu-sv's _evolve_step, (state.data, _current_H) are the two components of this step's stepper.apply(...), and _apply_observables rebuilds a generator only when none is stored (before the first step). ROLE-callback/ONCE: in both drivers every callback receives the run's config, the filter's "
+    "explanation": "OBSDEF-axis: the emu-sv occupation and correlation routines (state vector and density matrix) select level 1 of exactly the qubit(s) each entry is stored under - the exponents in front of the selected view axis sum to i, resp. j-1 after qubit i was removed, as polynomial identities in the loop variables - over every qubit and every pair i<j, mirrored; sum of diagonal entries for rho, squared norm for psi. ROLE-sv: on every path of emu-sv's _evolve_step, (state.data, _current_H) are the two components of this step's stepper.apply(...), and _apply_observables rebuilds a generator only when none is stored (before the first step). ROLE-callback/ONCE: in both drivers every callback receives the run's config, the filter's "
                    "time, the current state (emu-mps: 1/‖ψ‖·ψ on the plain and on the dark-atom branch) and the "
                    "current Hamiltonian; on the dark branch state, Hamiltonian and orthogonality centre are padded "
                    "with the same filter; in the noisy driver update_H(noise=0) precedes fill_results. OBSDEF: "
@@ -36,3 +36,5 @@ def check(ctx):
     drivers.evaluation_time_filter(ctx)
     observables.sv_density_matrix_energy(ctx)
     drivers.sv_current_hamiltonian(ctx)
+    axes.qubit_axes(ctx)
+    ctx.floor("OBSDEF-axis", 4)
